@@ -122,6 +122,14 @@ def r18_3(ctx):
                     evs = [e.node for e in bodies[0].events if e.kind == "call"]
                     good = (len(calls) == 2 and calls[0].endswith(f".parse({tgt}@iter)") and call_tail(evs[1]) == "append" and len(evs[1].args) == 1 and evs[1].args[0] is evs[0]
                             and isinstance(evs[1].func.value, ast.Name) and evs[1].func.value.id.split("@")[0] == args[1])
+        # ... or by an order-preserving comprehension / map over the parts
+        a1 = rec.args[1] if rec is not None and len(rec.args) > 1 else None
+        if isinstance(a1, ast.ListComp) and len(a1.generators) == 1 and not a1.generators[0].ifs and not a1.generators[0].is_async and norm(a1.generators[0].iter) == "BEH" \
+                and isinstance(a1.elt, ast.Call) and call_tail(a1.elt) == "parse" and len(a1.elt.args) == 1 and U(a1.elt.args[0]) == U(a1.generators[0].target):
+            good = True
+        if isinstance(a1, ast.Call) and call_name(a1) == "list" and len(a1.args) == 1 and isinstance(a1.args[0], ast.Call) and call_name(a1.args[0]) == "map" \
+                and len(a1.args[0].args) == 2 and U(a1.args[0].args[0]).endswith(".parse") and norm(a1.args[0].args[1]) == "BEH":
+            good = True
         ctx.check("successful entry: one tree per behaviour part, appended in order", good, "for b in behaviors: asts.append(parser.parse(b))", "loop shape not recognised" if not good else "ok", fn_where(idx, fi))
     pi = idx.func("ParsedInsn.__init__")
     stores = {U(n.targets[0] if isinstance(n, ast.Assign) else n.target): U(n.value) for n in ast.walk(pi.node) if isinstance(n, (ast.Assign, ast.AnnAssign))}
